@@ -1,4 +1,4 @@
-import Pypika.Syntax
+import Pypika.Replace
 import Pypika.Generated.Effects
 /-!
 # C15 — replace_table equals building the same object with the other table
@@ -58,5 +58,169 @@ theorem named_positions :
     (Gen.replaceTable.any (fun r => r.1 = "QueryBuilder".toList ∧ r.2.2.contains "_updates".toList ∧ r.2.2.contains "_joins".toList ∧
         r.2.2.contains "_with".toList)) = true := by
   decide +kernel
+
+
+/-! ## the whole tree: `replace_table` as implemented (`Pol.code`) against the specification (`Pol.spec`)
+
+`mapT` (in `Pypika/Replace.lean`) rewrites table references through the entire mutual syntax — terms, functions with
+FILTER / OVER, CASE, sub-queries, row sources, joins, every clause slot of a statement including the dialect extras,
+set operations.  `replaceT a b` is the model of `x.replace_table(a, b)` and is what the correspondence check runs
+against the real method on every generated object. -/
+
+/-- agreement of a policy with the specification on syntax that has none of the shapes the policy skips,
+    for any two reference maps that agree on the references that occur -/
+theorem map_agree (p : Pol) (P : TRef → Bool) (f g : TRef → TRef) (hfg : ∀ r, P r = true → f r = g r) :
+    (∀ t, chkT p P t = true → mapT p f t = mapT Pol.spec g t) ∧
+    (∀ s, chkS p P s = true → mapS p f s = mapS Pol.spec g s) ∧
+    (∀ l, chkOrd p P l = true → mapOrd p f l = mapOrd Pol.spec g l) ∧
+    (∀ l, chkOps p P l = true → mapOps p f l = mapOps Pol.spec g l) ∧
+    (∀ q, chkQ p P q = true → mapQ p f q = mapQ Pol.spec g q) ∧
+    (∀ l, chkCU p P l = true → mapCU p f l = mapCU Pol.spec g l) ∧
+    (∀ o, chkTO p P o = true → mapTO p f o = mapTO Pol.spec g o) ∧
+    (∀ l, chkPairs p P l = true → mapPairs p f l = mapPairs Pol.spec g l) ∧
+    (∀ l, chkJoins p P l = true → mapJoins p f l = mapJoins Pol.spec g l) ∧
+    (∀ j, chkJoin p P j = true → mapJoin p f j = mapJoin Pol.spec g j) ∧
+    (∀ l, chkTL p P l = true → mapTL p f l = mapTL Pol.spec g l) ∧
+    (∀ s, chkSrc p P s = true → mapSrc p f s = mapSrc Pol.spec g s) ∧
+    (∀ o, chkOS p P o = true → mapOS p f o = mapOS Pol.spec g o) ∧
+    (∀ l, chkRows p P l = true → mapRows p f l = mapRows Pol.spec g l) ∧
+    (∀ l, chkWiths p P l = true → mapWiths p f l = mapWiths Pol.spec g l) ∧
+    (∀ s, chkWithBody p P s = true → mapWithBody p f s = mapWithBody Pol.spec g s) ∧
+    (∀ l, chkSrcL p P l = true → mapSrcL p f l = mapSrcL Pol.spec g l) := by
+  apply chkT.mutual_induct
+    (motive_1 := fun t => chkT p P t = true → mapT p f t = mapT Pol.spec g t)
+    (motive_2 := fun s => chkS p P s = true → mapS p f s = mapS Pol.spec g s)
+    (motive_3 := fun l => chkOrd p P l = true → mapOrd p f l = mapOrd Pol.spec g l)
+    (motive_4 := fun l => chkOps p P l = true → mapOps p f l = mapOps Pol.spec g l)
+    (motive_5 := fun q => chkQ p P q = true → mapQ p f q = mapQ Pol.spec g q)
+    (motive_6 := fun l => chkCU p P l = true → mapCU p f l = mapCU Pol.spec g l)
+    (motive_7 := fun o => chkTO p P o = true → mapTO p f o = mapTO Pol.spec g o)
+    (motive_8 := fun l => chkPairs p P l = true → mapPairs p f l = mapPairs Pol.spec g l)
+    (motive_9 := fun l => chkJoins p P l = true → mapJoins p f l = mapJoins Pol.spec g l)
+    (motive_10 := fun j => chkJoin p P j = true → mapJoin p f j = mapJoin Pol.spec g j)
+    (motive_11 := fun l => chkTL p P l = true → mapTL p f l = mapTL Pol.spec g l)
+    (motive_12 := fun s => chkSrc p P s = true → mapSrc p f s = mapSrc Pol.spec g s)
+    (motive_13 := fun o => chkOS p P o = true → mapOS p f o = mapOS Pol.spec g o)
+    (motive_14 := fun l => chkRows p P l = true → mapRows p f l = mapRows Pol.spec g l)
+    (motive_15 := fun l => chkWiths p P l = true → mapWiths p f l = mapWiths Pol.spec g l)
+    (motive_16 := fun s => chkWithBody p P s = true → mapWithBody p f s = mapWithBody Pol.spec g s)
+    (motive_17 := fun l => chkSrcL p P l = true → mapSrcL p f l = mapSrcL Pol.spec g l)
+  all_goals (intros; simp_all [mapT, mapTL, mapTO, mapPairs, mapOrd, mapCU, mapRows, mapSrc, mapOS, mapSrcL, mapWithBody,
+    mapWiths, mapJoin, mapJoins, mapQ, mapS, mapOps, chkT, chkTL, chkTO, chkPairs, chkOrd, chkCU, chkRows, chkSrc, chkOS,
+    chkSrcL, chkWithBody, chkWiths, chkJoin, chkJoins, chkQ, chkS, chkOps, chkRef, Pol.spec])
+  all_goals (rename_i tbl h; cases tbl <;> simp_all)
+
+
+/-- the specification is functorial: rewriting twice is rewriting with the composition -/
+theorem map_comp (f g : TRef → TRef) :
+    (∀ t, mapT Pol.spec f (mapT Pol.spec g t) = mapT Pol.spec (f ∘ g) t) ∧
+    (∀ s, mapS Pol.spec f (mapS Pol.spec g s) = mapS Pol.spec (f ∘ g) s) ∧
+    (∀ l, mapOrd Pol.spec f (mapOrd Pol.spec g l) = mapOrd Pol.spec (f ∘ g) l) ∧
+    (∀ l, mapOps Pol.spec f (mapOps Pol.spec g l) = mapOps Pol.spec (f ∘ g) l) ∧
+    (∀ q, mapQ Pol.spec f (mapQ Pol.spec g q) = mapQ Pol.spec (f ∘ g) q) ∧
+    (∀ l, mapCU Pol.spec f (mapCU Pol.spec g l) = mapCU Pol.spec (f ∘ g) l) ∧
+    (∀ o, mapTO Pol.spec f (mapTO Pol.spec g o) = mapTO Pol.spec (f ∘ g) o) ∧
+    (∀ l, mapPairs Pol.spec f (mapPairs Pol.spec g l) = mapPairs Pol.spec (f ∘ g) l) ∧
+    (∀ l, mapJoins Pol.spec f (mapJoins Pol.spec g l) = mapJoins Pol.spec (f ∘ g) l) ∧
+    (∀ j, mapJoin Pol.spec f (mapJoin Pol.spec g j) = mapJoin Pol.spec (f ∘ g) j) ∧
+    (∀ l, mapTL Pol.spec f (mapTL Pol.spec g l) = mapTL Pol.spec (f ∘ g) l) ∧
+    (∀ s, mapSrc Pol.spec f (mapSrc Pol.spec g s) = mapSrc Pol.spec (f ∘ g) s) ∧
+    (∀ o, mapOS Pol.spec f (mapOS Pol.spec g o) = mapOS Pol.spec (f ∘ g) o) ∧
+    (∀ l, mapRows Pol.spec f (mapRows Pol.spec g l) = mapRows Pol.spec (f ∘ g) l) ∧
+    (∀ l, mapWiths Pol.spec f (mapWiths Pol.spec g l) = mapWiths Pol.spec (f ∘ g) l) ∧
+    (∀ s, mapWithBody Pol.spec f (mapWithBody Pol.spec g s) = mapWithBody Pol.spec (f ∘ g) s) ∧
+    (∀ l, mapSrcL Pol.spec f (mapSrcL Pol.spec g l) = mapSrcL Pol.spec (f ∘ g) l) := by
+  apply chkT.mutual_induct
+    (motive_1 := fun t => mapT Pol.spec f (mapT Pol.spec g t) = mapT Pol.spec (f ∘ g) t)
+    (motive_2 := fun s => mapS Pol.spec f (mapS Pol.spec g s) = mapS Pol.spec (f ∘ g) s)
+    (motive_3 := fun l => mapOrd Pol.spec f (mapOrd Pol.spec g l) = mapOrd Pol.spec (f ∘ g) l)
+    (motive_4 := fun l => mapOps Pol.spec f (mapOps Pol.spec g l) = mapOps Pol.spec (f ∘ g) l)
+    (motive_5 := fun q => mapQ Pol.spec f (mapQ Pol.spec g q) = mapQ Pol.spec (f ∘ g) q)
+    (motive_6 := fun l => mapCU Pol.spec f (mapCU Pol.spec g l) = mapCU Pol.spec (f ∘ g) l)
+    (motive_7 := fun o => mapTO Pol.spec f (mapTO Pol.spec g o) = mapTO Pol.spec (f ∘ g) o)
+    (motive_8 := fun l => mapPairs Pol.spec f (mapPairs Pol.spec g l) = mapPairs Pol.spec (f ∘ g) l)
+    (motive_9 := fun l => mapJoins Pol.spec f (mapJoins Pol.spec g l) = mapJoins Pol.spec (f ∘ g) l)
+    (motive_10 := fun j => mapJoin Pol.spec f (mapJoin Pol.spec g j) = mapJoin Pol.spec (f ∘ g) j)
+    (motive_11 := fun l => mapTL Pol.spec f (mapTL Pol.spec g l) = mapTL Pol.spec (f ∘ g) l)
+    (motive_12 := fun s => mapSrc Pol.spec f (mapSrc Pol.spec g s) = mapSrc Pol.spec (f ∘ g) s)
+    (motive_13 := fun o => mapOS Pol.spec f (mapOS Pol.spec g o) = mapOS Pol.spec (f ∘ g) o)
+    (motive_14 := fun l => mapRows Pol.spec f (mapRows Pol.spec g l) = mapRows Pol.spec (f ∘ g) l)
+    (motive_15 := fun l => mapWiths Pol.spec f (mapWiths Pol.spec g l) = mapWiths Pol.spec (f ∘ g) l)
+    (motive_16 := fun s => mapWithBody Pol.spec f (mapWithBody Pol.spec g s) = mapWithBody Pol.spec (f ∘ g) s)
+    (motive_17 := fun l => mapSrcL Pol.spec f (mapSrcL Pol.spec g l) = mapSrcL Pol.spec (f ∘ g) l)
+
+  all_goals (intros; try simp_all [mapT, mapTL, mapTO, mapPairs, mapOrd, mapCU, mapRows, mapSrc, mapOS, mapSrcL, mapWithBody,
+    mapWiths, mapJoin, mapJoins, mapQ, mapS, mapOps, Pol.spec])
+  all_goals (rename_i tbl; cases tbl <;> simp_all)
+
+
+/-- **C15, whole tree (partial: listed gap shapes excluded).**  On a term of any depth that contains no set operation,
+    no sub-query used as FROM / JOIN / USING item, no table as WITH body and no temporal table source,
+    `replace_table` as implemented is exactly the substitution of `b` for `a` at every occurrence. -/
+theorem replace_eq_subst_partial (a b : TRef) (t : Term) (h : chkT Pol.code (fun _ => true) t = true) :
+    replaceT a b t = substT a b t :=
+  (map_agree Pol.code (fun _ => true) _ _ (fun _ _ => rfl)).1 t h
+
+theorem replaceQ_eq_subst_partial (a b : TRef) (q : Query) (h : chkQ Pol.code (fun _ => true) q = true) :
+    replaceQ a b q = substQ a b q :=
+  (map_agree Pol.code (fun _ => true) _ _ (fun _ _ => rfl)).2.2.2.2.1 q h
+
+/-- putting table `x` into the hole `h` of a builder context -/
+def inst (h x : TRef) (t : TRef) : TRef := if t = h then x else t
+
+/-- **rebuild equivalence (specification level).**  For every context `sk` with a hole `h` in which `a` does not occur
+    otherwise: substituting `b` for `a` in the object built with `a` gives the object built with `b`. -/
+theorem subst_build (a b h : TRef) (sk : Term) (hfree : chkT Pol.spec (fun r => decide (r ≠ a)) sk = true) :
+    substT a b (mapT Pol.spec (inst h a) sk) = mapT Pol.spec (inst h b) sk := by
+  unfold substT
+  rw [(map_comp (swapRef a b) (inst h a)).1 sk]
+  refine (map_agree Pol.spec (fun r => decide (r ≠ a)) _ _ ?_).1 sk hfree
+  intro r hr
+  have hne : r ≠ a := by simpa using hr
+  by_cases hh : r = h <;> simp [inst, swapRef, hh, hne]
+
+/-- **C15 for the implementation's `replace_table` (partial).**  If, in addition, the built object contains none of the
+    listed gap shapes, `build(a).replace_table(a, b) = build(b)` — for every builder context, of any depth. -/
+theorem replace_build_partial (a b h : TRef) (sk : Term) (hfree : chkT Pol.spec (fun r => decide (r ≠ a)) sk = true)
+    (hgap : chkT Pol.code (fun _ => true) (mapT Pol.spec (inst h a) sk) = true) :
+    replaceT a b (mapT Pol.spec (inst h a) sk) = mapT Pol.spec (inst h b) sk := by
+  rw [replace_eq_subst_partial a b _ hgap]; exact subst_build a b h sk hfree
+
+/-- references other than `a` are untouched, at every depth: if `a` does not occur, nothing changes
+    (stated against the identity rewriting) -/
+theorem other_tables_untouched (a b : TRef) (t : Term) (hfree : chkT Pol.spec (fun r => decide (r ≠ a)) t = true) :
+    substT a b t = mapT Pol.spec id t := by
+  refine (map_agree Pol.spec (fun r => decide (r ≠ a)) _ _ ?_).1 t hfree
+  intro r hr
+  have hne : r ≠ a := by simpa using hr
+  simp [swapRef, hne]
+
+/-! non-vacuity and the listed gaps -/
+def tA : TRef := { name := some "ta".toList }
+def tB : TRef := { name := some "tb".toList }
+def tH : TRef := { name := some "hole".toList }
+/-- `SUM(h.x) FILTER(WHERE h.y > 1) + CASE WHEN h.z IN (SELECT c.k FROM c WHERE c.k = h.z) THEN 1 END` -/
+def skeleton : Term :=
+  .arith .add
+    (.func "SUM".toList none [.field "x".toList none (some tH)] false none none
+      (some (.basic ">".toList (.field "y".toList none (some tH)) (.val (.num "1".toList) none) none)) false [] [] none false none)
+    (.case [(.isin (.field "z".toList none (some tH))
+              (.sub (.mk {} [.table { name := some "c".toList } false none] [] [.field "k".toList none (some { name := some "c".toList })]
+                 none none [] [] (some (.basic "=".toList (.field "k".toList none (some { name := some "c".toList })) (.field "z".toList none (some tH)) none))
+                 none none [] [] [] [] [] [] [] [] [] none none [] []))
+              false none, .val (.num "1".toList) none)] none none) none
+
+example : chkT Pol.spec (fun r => decide (r ≠ tA)) skeleton = true := by decide
+example : chkT Pol.code (fun _ => true) (mapT Pol.spec (inst tH tA) skeleton) = true := by decide
+
+/-- known finding (set operation): the implemented `replace_table` leaves a set operation as it is -/
+theorem kf_setop (s : SetOp) (a b : TRef) : replaceT a b (.setop s) = .setop s := by
+  simp [replaceT, mapT, Pol.code]
+
+/-- known finding (sub-query as FROM item): the item is kept, the specification descends into it -/
+theorem kf_subquery_source (fl : QFlags) (q : Query) (sel : List Term) (a b : TRef) :
+    replaceQ a b (.mk fl [.query q] [] sel none none [] [] none none none [] [] [] [] [] [] [] [] [] none none [] []) =
+      .mk fl [.query q] [] (mapTL Pol.code (swapRef a b) sel) none none [] [] none none none [] [] [] [] [] [] [] [] [] none none [] [] := by
+  simp [replaceQ, mapQ, mapSrcL, mapSrc, mapWiths, mapOS, mapTL, mapRows, mapTO, mapOrd, mapJoins, mapPairs, mapCU, Pol.code]
 
 end Pypika.C15
